@@ -19,7 +19,15 @@ Kinds == {<<>>, <<"i">>, <<"d">>, <<"r">>, <<"s">>, <<"i", "d">>, <<"r", "s">>, 
 CasesOf(n) == {[w |-> [k \in 1..n |-> k], excl |-> SetToSeq(x), kinds |-> ks, tb |-> t, chain |-> 3, seeds |-> <<1, 2, 3, 4, 5, 6>>,
                 g |-> g, alpha |-> IF g THEN "cluster" ELSE "ascii", providers |-> TRUE] :
                   x \in SUBSET (0..(n - 1)), ks \in Kinds, t \in {T1, T2}, g \in BOOLEAN}
-Cases == UNION {CasesOf(n) : n \in 0..MaxLen}
+\* the chain as the library runs it (spelling corruption, artificial mode, deletions and swaps of letters): every word up to
+\* MaxLen + 1 symbols over three letters (repeats allowed) and, with clusters, over two letters and two symbols that are no
+\* letters (del = the letters of the alphabet), edit probability 1 and 1/2, full deletion allowed or not, several streams
+SpellWords(S, n) == UNION {[1..k -> S] : k \in 1..n}
+SpellCases == {[kind |-> "spell", w |-> w, alpha |-> "ascii", del |-> <<1, 2, 3>>, pone |-> po, full |-> fu, seed |-> sd] :
+                  w \in SpellWords({1, 2, 3}, MaxLen + 1), po \in BOOLEAN, fu \in BOOLEAN, sd \in 0..5}
+              \cup {[kind |-> "spell", w |-> w, alpha |-> "cluster", del |-> <<1, 4>>, pone |-> po, full |-> fu, seed |-> sd] :
+                  w \in SpellWords({1, 2, 3, 4}, MaxLen), po \in BOOLEAN, fu \in BOOLEAN, sd \in 0..2}
+Cases == UNION {CasesOf(n) : n \in 0..MaxLen} \cup (IF "SPELL" \in DOMAIN IOEnv THEN SpellCases ELSE {})
 VARIABLE x
 Init == x = 0 /\ ndJsonSerialize(IOEnv.OUT, SetToSeq(Cases))
 Next == UNCHANGED x
